@@ -301,6 +301,12 @@ func (a *Box2) lineIntersect(l *Line2) *Line2 {
 	var pSet []v2.Vec
 	for _, t := range tSet {
 		p := u.Add(v.MulScalar(t))
+		// the end points of the line are used as they are: u + v*1 need not be l[1]
+		if t == 0 {
+			p = l[0]
+		} else if t == 1 {
+			p = l[1]
+		}
 		p = a.Snap(p, tolerance)
 		// is the point in the box?
 		if a.Contains(p) {
